@@ -88,41 +88,106 @@ func c14Routing(c *Ctx) {
 			if !c.Anchor("R14.3", "zap.SugaredLogger."+n+suf, fn != nil) {
 				continue
 			}
-			helper := "(*go.uber.org/zap.SugaredLogger).log"
-			if suf == "ln" {
-				helper += "ln"
-			}
-			var call *ssa.Call
-			for _, cl := range Calls(fn) {
-				if IsCallTo(cl, helper) {
-					call, _ = cl.(*ssa.Call)
-				}
-			}
-			if call == nil {
-				c.Bad("R14.3", FStr(fn), "slots", fn.Pos(), "does not call %s", helper)
-				continue
-			}
-			a := Args(call)[1:] // drop receiver
-			// parameters of fn after receiver (and level for Log*)
+			// by path exploration (the sugared helpers and the function values handed to them inline; the two message
+			// functions, sweetenFields and the Logger's own methods opaque): what reaches Logger.Check as level and message,
+			// and what is sweetened into fields
 			ps := fn.Params[1:]
+			lvlWant := ""
 			if n == "Log" {
+				lvlWant = PN(ps[0])
 				ps = ps[1:]
 			}
-			var got, want []string
-			for _, x := range a[1:] {
-				got = append(got, Desc(x))
-			}
+			var wantMsg []string
+			wantCtx := "nil"
 			switch suf {
 			case "":
-				want = []string{`""`, PN(ps[0]), "nil"}
+				wantMsg = []string{`getMessage("", ` + PN(ps[0]) + `)`}
 			case "f":
-				want = []string{PN(ps[0]), PN(ps[1]), "nil"}
+				wantMsg = []string{`getMessage(` + PN(ps[0]) + `, ` + PN(ps[1]) + `)`}
 			case "w":
-				want = []string{PN(ps[0]), "nil", PN(ps[1])}
+				wantMsg = []string{`getMessage(` + PN(ps[0]) + `, nil)`, PN(ps[0])}
+				wantCtx = PN(ps[1])
 			case "ln":
-				want = []string{PN(ps[0]), "nil"}
+				wantMsg = []string{`getMessageln(` + PN(ps[0]) + `)`}
 			}
-			c.Check(strings.Join(got, "|") == strings.Join(want, "|") && Desc(Args(call)[0]) == "s", "R14.3", FStr(fn), "slots", call.Pos(), "%s passes (template, fmtArgs, context) = %v (want %v)", n+suf, got, want)
+			seqs, trunc := ConcPaths(fn, ConcCfg{
+				Inline: func(h *ssa.Function) bool {
+					return c14Inline(h) && FNm(h) != "getMessage" && FNm(h) != "getMessageln"
+				},
+				Event: func(in ssa.Instruction, st *ConcState) string {
+					x, ok := in.(*ssa.Call)
+					if !ok {
+						return ""
+					}
+					switch {
+					case IsCallTo(x, "(*go.uber.org/zap.Logger).Check"):
+						a := Args(x)
+						lv := st.Desc(a[1])
+						if k, known := st.Int(a[1]); known {
+							lv = itoa(int(k))
+						}
+						m := c14Resolve(st, a[2])
+						md := st.Desc(a[2])
+						fname := ""
+						mc, isCall := m.(*ssa.Call)
+						if isCall {
+							if IsCallTo(mc, ZapPath+".getMessage") || IsCallTo(mc, ZapPath+".getMessageln") {
+								fname = FNm(CalleeFunc(mc))
+							} else if !mc.Call.IsInvoke() && mc.Call.StaticCallee() == nil {
+								// the message function handed down as a value
+								if f, isF := c14Resolve(st, mc.Call.Value).(*ssa.Function); isF && (FNm(f) == "getMessage" || FNm(f) == "getMessageln") && f.Pkg != nil && f.Pkg.Pkg.Path() == ZapPath {
+									fname = FNm(f)
+								}
+							}
+						}
+						if fname != "" {
+							var as []string
+							for _, ma := range mc.Call.Args {
+								d := st.Desc(ma)
+								if isNil, known := st.IsNil(ma); known && isNil {
+									d = "nil"
+								}
+								as = append(as, d)
+							}
+							md = fname + "(" + strings.Join(as, ", ") + ")"
+						}
+						return "check[" + lv + "|" + md + "]"
+					case IsCallTo(x, "(*go.uber.org/zap.SugaredLogger).sweetenFields"):
+						a := Args(x)
+						d := st.Desc(a[1])
+						if isNil, known := st.IsNil(a[1]); known && isNil {
+							d = "nil"
+						}
+						return "ctx[" + d + "]"
+					}
+					return ""
+				},
+			})
+			var bad []string
+			nCheck := 0
+			lvK, _ := c.ConstVal(CorePath, n+"Level")
+			for _, sq := range seqs {
+				for _, t := range strings.Split(sq, " ; ") {
+					switch {
+					case strings.HasPrefix(t, "check["):
+						nCheck++
+						parts := strings.SplitN(strings.TrimSuffix(strings.TrimPrefix(t, "check["), "]"), "|", 2)
+						okL := n == "Log" && parts[0] == lvlWant || n != "Log" && parts[0] == itoa(int(lvK))
+						okM := false
+						for _, w := range wantMsg {
+							okM = okM || len(parts) == 2 && parts[1] == w
+						}
+						if !okL || !okM {
+							bad = append(bad, t)
+						}
+					case strings.HasPrefix(t, "ctx["):
+						if t != "ctx["+wantCtx+"]" {
+							bad = append(bad, t)
+						}
+					}
+				}
+			}
+			c.Check(!trunc && nCheck > 0 && len(bad) == 0, "R14.3", FStr(fn), "slots", fn.Pos(), "on every path of %s (helpers inline): Logger.Check gets the method's level and the message %v, and exactly %s is sweetened into fields (offending: %v)", n+suf, wantMsg, wantCtx, uniqSorted(bad))
 		}
 	}
 	for _, m := range []string{"With", "WithLazy"} {
@@ -168,11 +233,17 @@ func c14Resolve(st *ConcState, v ssa.Value) ssa.Value {
 // fmt.Sprintln(args...) without exactly its final byte.
 func c14MessageLn(c *Ctx) {
 	fn := c.Method(ZapPath, "SugaredLogger", "logln")
-	if !c.Anchor("R14.4", "zap.SugaredLogger.logln", fn != nil && len(fn.Params) == 4) {
+	argIdx := 2
+	if fn == nil || len(fn.Params) != 4 {
+		// no helper of its own for the …ln family: followed from one of its methods (the shared helper and the message
+		// function it is handed explored inline)
+		fn, argIdx = c.Method(ZapPath, "SugaredLogger", "Infoln"), 1
+	}
+	if !c.Anchor("R14.4", "zap.SugaredLogger.logln", fn != nil && len(fn.Params) > argIdx) {
 		return
 	}
 	name := FStr(fn)
-	argsP := fn.Params[2]
+	argsP := fn.Params[argIdx]
 	isSprintln := func(st *ConcState, v ssa.Value) (*ssa.Call, bool) {
 		cl, ok := c14Resolve(st, v).(*ssa.Call)
 		if !ok || !IsCallTo(cl, "fmt.Sprintln") || len(cl.Call.Args) != 1 {
@@ -264,11 +335,23 @@ func c14MessageLn(c *Ctx) {
 // fmt.Sprint(args...) for an empty one (a lone string argument may stand for itself).
 func c14MessageF(c *Ctx) {
 	fn := c.Method(ZapPath, "SugaredLogger", "log")
-	if !c.Anchor("R14.4", "zap.SugaredLogger.log", fn != nil && len(fn.Params) == 5) {
+	ti, ai := 2, 3
+	name := ""
+	if fn != nil {
+		name = FStr(fn)
+	}
+	if fn == nil || len(fn.Params) != 5 {
+		// the helper takes more than (level, template, args, context) - the message function, say: followed from a
+		// printf-style method, whose template and arguments are as free as the helper's
+		fn, ti, ai = c.Method(ZapPath, "SugaredLogger", "Infof"), 1, 2
+		if name == "" && fn != nil {
+			name = FStr(fn)
+		}
+	}
+	if !c.Anchor("R14.4", "zap.SugaredLogger.log", fn != nil && len(fn.Params) > ai) {
 		return
 	}
-	name := FStr(fn)
-	tmplP, argsP := fn.Params[2], fn.Params[3]
+	tmplP, argsP := fn.Params[ti], fn.Params[ai]
 	var lin func(st *ConcState, v ssa.Value, d int) (a, b int64, ok bool)
 	lin = func(st *ConcState, v ssa.Value, d int) (int64, int64, bool) {
 		if k, known := st.Int(v); known {
